@@ -42,6 +42,30 @@ def diffSite : QuoteSite := ⟨57, [45, 42, 92, 39, 42], [34, 36, 99, 109, 112, 
 ``` -/
 def diffPlainGuard : Bytes := [45, 63, 42]
 
+/-- xzdiff.in  `cmp=` this word (after the option loop)
+```
+"$cmp --"
+``` -/
+def cmpDashDashSrc : Bytes := [34, 36, 99, 109, 112, 32, 45, 45, 34]
+
+/-- xzdiff.in: the distinct argument lists of `eval "$cmp" …`:
+    `eval "$cmp" - '"$FILE"'`
+    `eval "$cmp" - -`
+    `eval "$cmp" /dev/fd/5 -`
+    `eval "$cmp" - '"$tmp/$F"'`
+    `eval "$cmp" - '"$2"'`
+    `eval "$cmp" '"$1"' -`
+    `eval "$cmp" '"$1"' '"$2"'`
+-/
+def cmpEvalSrcs : List Bytes := [
+  [34, 36, 99, 109, 112, 34, 32, 45, 32, 39, 34, 36, 70, 73, 76, 69, 34, 39],
+  [34, 36, 99, 109, 112, 34, 32, 45, 32, 45],
+  [34, 36, 99, 109, 112, 34, 32, 47, 100, 101, 118, 47, 102, 100, 47, 53, 32, 45],
+  [34, 36, 99, 109, 112, 34, 32, 45, 32, 39, 34, 36, 116, 109, 112, 47, 36, 70, 34, 39],
+  [34, 36, 99, 109, 112, 34, 32, 45, 32, 39, 34, 36, 50, 34, 39],
+  [34, 36, 99, 109, 112, 34, 32, 39, 34, 36, 49, 34, 39, 32, 45],
+  [34, 36, 99, 109, 112, 34, 32, 39, 34, 36, 49, 34, 39, 32, 39, 34, 36, 50, 34, 39]]
+
 /-- xzgrep.in:86  `arg2=`PREFIX`$(LC_ALL=C expr "X${option}X" : 'X-.[0-9]*\(.*\)' | LC_ALL=C sed "$escape")`
 ```
 -\'
